@@ -45,8 +45,8 @@ def main():
             rc, out = sh(["git", "apply", os.path.abspath(patch)], cwd=repo)
             assert rc == 0, "patch does not apply: " + out
         rc, out = sh(["rsync", "-a", "--exclude", ".git", "--exclude", "replay", "--exclude", "evidence", "--exclude", "seeded",
-                      VERIF + "/", verif + "/"])
-        assert rc == 0, out
+                      "--exclude", "work/iso", "--exclude", "work/mutants", VERIF + "/", verif + "/"])
+        assert rc in (0, 24), out          # 24: a file vanished while copying (another evaluation's output being renamed)
         ct = os.path.join(verif, "harness", "Cargo.toml")
         s = open(ct).read().replace('path = "/repo"', 'path = "%s"' % repo)
         open(ct, "w").write(s)
